@@ -136,6 +136,7 @@ func TestVerif_C05_Leases(t *testing.T) {
 	rec := verifx.NewRecorder("C05", "leases", "rapid state machine on a real core with a recording backend (mount default 30m / max 2h) and the token mount tuned to max 3h: issue leased secrets (ttl/max_ttl/renewable generated) and tokens (ttl, explicit_max_ttl, period), renew with generated increments through sys/leases/renew and auth/token/renew(-self), revoke, make the backend refuse revocation (irrevocable leases), restart on the same storage, restart on the store after a crash prefix of the last operation's writes, restart during which one read of a stored lease entry fails (at once, or only after the unseal call returned), step-down and re-acquisition of leadership on an HA-enabled node; oracle: a node that serves requests after a failed lease restore tracks every stored lease (or it has shut itself down); after every issue/renew the granted expiry never exceeds issue time + effective maximum (+1 s truncation), expired/revoked/non-renewable leases cannot be renewed, and at quiescence the lease ids in storage are all tracked in exactly one of pending / nonexpiring / irrevocable; non-trivial = a renewal that was capped or refused, or a restart/crash with >=2 stored leases")
 	defer rec.Flush()
 	rapid.Check(t, func(rt *rapid.T) {
+		defer recoverWedged(rec)
 		ha := fairIndex(rt, "haEnabled", 3) == 0
 		w := newC05World(t, rapid.Bool().Draw(rt, "transactionalStorage"), ha)
 		stepdowns := 0
@@ -327,6 +328,25 @@ func TestVerif_C05_Leases(t *testing.T) {
 				f, fired := verifx.FailNth(func(o *verifx.Op) bool {
 					return o.G == g && (!onlyWrites || o.Kind == "put" || o.Kind == "delete")
 				}, k)
+				if fairIndex(rt, "outage", 3) == 0 {
+					// the k-th operation of the request and every later one fail (outage / ended request context)
+					cnt := 0
+					var firstHit *verifx.Op
+					f = func(o *verifx.Op) error {
+						if o.G != g {
+							return nil
+						}
+						cnt++
+						if cnt >= k {
+							if firstHit == nil {
+								firstHit = o
+							}
+							return verifx.ErrInjected
+						}
+						return nil
+					}
+					fired = func() *verifx.Op { return firstHit }
+				}
 				w.tc.rec.SetFault(f)
 				var r rr
 				if l.isToken {
@@ -466,7 +486,7 @@ func TestVerif_C05_Leases(t *testing.T) {
 					for ntc.c.expiration != nil && ntc.c.expiration.inRestoreMode() && time.Now().Before(deadline) {
 						time.Sleep(time.Millisecond)
 					}
-					grace := time.Now().Add(300 * time.Millisecond)
+					grace := time.Now().Add(3 * time.Second)
 					for fired() && !ntc.c.Sealed() && time.Now().Before(grace) {
 						time.Sleep(time.Millisecond)
 					}
